@@ -67,7 +67,8 @@ func (s *c13Stub) latest() []byte {
 }
 
 type c13Scenario struct {
-	W    int // -1 = nothing stored
+	Bound int
+	W     int // -1 = nothing stored
 	Head int
 	Kind string // honest, fork, wrong-key, wrong-origin
 	Real bool
@@ -448,8 +449,9 @@ func c13(tier string) int {
 	run := ev.NewRun("C13", tier, "fault_enumeration")
 	wh.InstallLogicalClock()
 	bound := 2
+	ws, heads := []int{-1, 0, 2, 5}, []int{0, 2, 3, 6}
 	if tier == "thorough" {
-		bound = 4
+		ws, heads = []int{-1, 0, 1, 2, 3, 4, 5}, []int{0, 1, 2, 3, 4, 5, 6}
 	}
 	u := uni.New(ev.Seed(), 8, []int{0})
 	gen := wh.NewCPGen(u)
@@ -458,13 +460,17 @@ func c13(tier string) int {
 	maxPts := 0
 	var scs []c13Scenario
 	for _, real := range []bool{false, true} {
-		for w := -1; w <= 5; w++ {
-			for head := 0; head <= 6; head++ {
+		for _, w := range ws {
+			for _, head := range heads {
 				for _, kind := range []string{"honest", "fork", "wrong-key", "wrong-origin"} {
 					if kind == "fork" && head == 0 {
 						continue
 					}
-					scs = append(scs, c13Scenario{W: w, Head: head, Kind: kind, Real: real})
+					scs = append(scs, c13Scenario{W: w, Head: head, Kind: kind, Real: real, Bound: bound})
+					// Thorough: one more deviation on the grid the quick tier uses.
+					if tier == "thorough" && kind == "honest" && (w == -1 || w == 0 || w == 2 || w == 5) && (head == 0 || head == 2 || head == 3 || head == 6) {
+						scs = append(scs, c13Scenario{W: w, Head: head, Kind: kind, Real: real, Bound: 3})
+					}
 				}
 			}
 		}
@@ -477,12 +483,9 @@ func c13(tier string) int {
 		go func() {
 			defer wg.Done()
 			for sc := range ch {
-				b := bound
-				if tier == "thorough" && (sc.Kind == "wrong-key" || sc.Kind == "wrong-origin") {
-					b = 2
-				}
+				b := sc.Bound
 				st, err := choice.Explore(b, func(c *choice.C) {
-					c13Exec(run, u, gen, la, sc, c, bound+3)
+					c13Exec(run, u, gen, la, sc, c, b+3)
 					if c.Deviations() > 0 {
 						run.Distinct(sc.String() + fmt.Sprint(c.Trace()))
 					}
@@ -516,7 +519,7 @@ func c13(tier string) int {
 			run.Vacuous("cycle outcome %q never observed", k)
 		}
 	}
-	run.Set("rule", fmt.Sprintf("for witness state in {none, 0..5} x log head in 0..6 x {honest, fork of the witnessed prefix, wrong key, wrong origin} x {recording stub witness, real witness behind the real witnessAdapter}: the real feeder.FeedOnce is run with every environment call answered by the explorer - FetchCheckpoint {ok, fail}, GetLatestCheckpoint {ok, transient failure of 3 kinds (plain error, per-request timeout wrapping context.DeadlineExceeded, inner context.Canceled), ok after another feeder advanced the witness}, FetchProof {ok, 3 failure kinds}, Update {ok, 3 failure kinds, witness advanced first}, back-off timer {fires at once, context ends at this wait} - for every placement of up to %d non-default answers (deviation-bounded DFS, positions discovered dynamically; the back-off timer is replaced by an overlay of backoff/timer.go so no wall-clock time passes; a horizon of %d timer starts ends the context). Oracle = reference model of one cycle (see DESIGN.md C13). distinct_nontrivial = distinct (scenario, placement) with at least one deviation", bound, bound+3))
+	run.Set("rule", fmt.Sprintf("for witness state in {none, 0, 2, 5} x log head in {0, 2, 3, 6} (quick) / {none, 0..5} x 0..6 (thorough, plus a third deviation for honest logs on the quick grid) x {honest, fork of the witnessed prefix, wrong key, wrong origin} x {recording stub witness, real witness behind the real witnessAdapter}: the real feeder.FeedOnce is run with every environment call answered by the explorer - FetchCheckpoint {ok, fail}, GetLatestCheckpoint {ok, transient failure of 3 kinds (plain error, per-request timeout wrapping context.DeadlineExceeded, inner context.Canceled), ok after another feeder advanced the witness}, FetchProof {ok, 3 failure kinds}, Update {ok, 3 failure kinds, witness advanced first}, back-off timer {fires at once, context ends at this wait} - for every placement of up to %d non-default answers (deviation-bounded DFS, positions discovered dynamically; the back-off timer is replaced by an overlay of backoff/timer.go so no wall-clock time passes; a horizon of %d timer starts ends the context). Oracle = reference model of one cycle (see DESIGN.md C13). distinct_nontrivial = distinct (scenario, placement) with at least one deviation", bound, bound+3))
 	run.Assumption("the back-off timer overlay changes only whether/when the timer fires; retry policy, context handling and permanent-error logic are the library's and the repository's")
 	return run.Finish()
 }
